@@ -58,6 +58,9 @@ namespace {
           break;
       }
     }
+    if (fin.bad()) {
+      throw std::logic_error("bxdecay0::dbd_isotopes: I/O error while reading resource file '" + filename + "'!");
+    }
     return tmp_isotopes; 
   }
 
@@ -92,6 +95,9 @@ namespace {
       if (fin.eof()) {
         break;
       }
+    }
+    if (fin.bad()) {
+      throw std::logic_error("bxdecay0::background_isotopes: I/O error while reading resource file '" + filename + "'!");
     }
     return tmp_isotopes;
   }
@@ -177,6 +183,9 @@ namespace {
       if (fin.eof()) {
         break;
       }
+    }
+    if (fin.bad()) {
+      throw std::logic_error("bxdecay0::get_dbd_modes: I/O error while reading resource file '" + filename + "'!");
     }
     return tmp_dbd_modes;
   }
